@@ -34,11 +34,11 @@ def r_at_most(ck: Checker) -> None:
     # H2: not an input predicate
     attr = self_attr_for_param(ck, CLS, "input_predicates")
     loop = enclosing_loop(outer, call)
-    while loop is not None and not (isinstance(loop.iter, ast.Name) and unparse(loop.target) == pred):
+    while loop is not None and not (isinstance(loop, ast.For) and unparse(loop.target) == pred):
         loop = enclosing_loop(outer, loop)
-    ck.need(loop is not None and isinstance(loop.iter, ast.Name), "loop over the candidate predicates")
-    src = loop.iter.id  # type: ignore[union-attr]
-    minus = [n for n in find_nodes(outer.node, lambda n: isinstance(n, ast.AugAssign) and isinstance(n.op, ast.Sub)) if unparse(n.target) == src and unparse(n.value) == f"self.{attr}"  # type: ignore[attr-defined]
+    ck.need(loop is not None, "loop over the candidate predicates")
+    src = loop.iter.id if isinstance(loop.iter, ast.Name) else None  # type: ignore[union-attr]
+    minus = [n for n in find_nodes(outer.node, lambda n: isinstance(n, ast.AugAssign) and isinstance(n.op, ast.Sub)) if src is not None and unparse(n.target) == src and unparse(n.value) == f"self.{attr}"  # type: ignore[attr-defined]
              and n.lineno < loop.lineno and parent(outer, n) is outer.node]  # type: ignore[union-attr]
     ok = bool(minus) or ito.holds(call, f"{pred} not in self.{attr}")
     ck.add("H2 not an input predicate", ok, outer, call, f"candidates exclude self.{attr}: {ok}", "the instance may add further facts of an input predicate, so the choice rule's bound does not limit it")
@@ -235,6 +235,16 @@ def r_replace_optimize(ck: Checker) -> None:
     trig = resolved_calls(ck.prg, func, f"ngo.{CLS}._get_trigger")
     ck.need(len(trig) == 1, "_replace_optimize looks for the trigger once")
     ck.guard("G3 the weight variable occurs exactly once elsewhere", func, trig[0], "others.count(minimize_var) == 1", "see _element_passes")
+    ext = [c for c in attr_calls(func, "extend") if unparse(c.func.value) == "others"]  # type: ignore[attr-defined]
+    srcs = set()
+    for c in ext:
+        for st in it.states(c):
+            a = c.args[0]
+            if isinstance(a, ast.Call) and callee_is(ck.prg, func, a, "ngo.utils.ast:collect_ast") and isinstance(a.args[0], ast.Name) and is_const(a.args[1], "Variable"):
+                srcs.add(st.origin.get(a.args[0].id, ""))
+    fields = {f for s_ in srcs for f in re.findall(rf"\b{m}\.(\w+)", s_)}
+    ck.add("occurrences are counted over priority, tuple terms and the whole body", fields >= {"priority", "terms", "body"} and "weight" not in fields, func, trig[0], f"scanned {sorted(srcs)}",
+           "a weight variable that is also the priority (`[L@L,D]`) or occurs in the tuple or a second body literal cannot be telescoped: each chain link would land on its own level / tuple")
     mv = single_def(func, "minimize_var")
     ck.add("weight variable comes from _get_var", mv is not None and unparse(mv) == f"self._get_var({m})", func, func.node, f"minimize_var = `{unparse(mv) if mv is not None else None}`", "")
     rem = [c for c in attr_calls(func, "remove")]
